@@ -6,6 +6,7 @@ import TB.Model.Sha1
 import TB.Spec.BencodeSpec
 import TB.Spec.LayoutSpec
 import TB.Spec.MetainfoSpec
+import TB.Spec.MetainfoLax
 namespace TB.Streams
 open TB TB.Proto
 
@@ -71,20 +72,20 @@ def handleLoad (inp : Bytes) (obs : List String) : String :=
   let mObs := loadObs m
   let iObs := unwords obs
   -- the specification's verdict, computed from the denoted value only
-  let spec : Option Torrent :=
-    match decode inp with
-    | .ok t => specLoad Sha1.sha1 (erase t)
-    | _ => none
+  let dv : Option BVal := match decode inp with | .ok t => some (erase t) | _ => none
+  let spec : Option Torrent := dv.bind (specLoad Sha1.sha1)          -- strict: plain names required
+  let specLax : Option Torrent := dv.bind (specLoadLax Sha1.sha1)    -- refusal of non-plain names is optional (C10)
   let fails : List String :=
     match obs with
     | "ok" :: rest =>
       match pTorrent rest with
       | some (t, "PIECES" :: prest) =>
-        (match spec with
+        (match specLax with
          | none => ["c10-loads-illformed"]
          | some st =>
            (if st.info == t.info then [] else ["c10-fields"]) ++
-           (if st.infoHash == t.infoHash then [] else ["c07-infohash"])) ++
+           (if st.infoHash == t.infoHash then [] else ["c07-infohash"]) ++
+           (if spec.isNone then ["c03-nonplain-loaded"] else [])) ++
         (match prest with
          | "ok" :: ps =>
            match pPieces ps with
